@@ -91,6 +91,11 @@ class Obj:
         return f"{self.cls_name}({inner})"
 
 
+class SetVal(list):
+    """a Python set as modelled by the interpreter: insertion-ordered list with set semantics (mutable, aliasable)"""
+    frozen = False
+
+
 class Opaque:
     """a value the interpreter does not model (strings built by formatting, external objects)"""
 
@@ -113,10 +118,17 @@ class Interp:
         self.max_steps = max_steps
         self.steps = 0
         self.enum_cache: Dict[str, Dict[str, EnumVal]] = {}
+        self.dynamic_enums: Dict[str, str] = {}
         self.trace_calls: List[str] = []
 
     # ---- enums --------------------------------------------------------------------
     def enum(self, cls_name) -> Dict[str, EnumVal]:
+        if cls_name not in self.enum_cache and not self.repo.has_cls(cls_name):
+            # a functional-API enum bound to a module-level name (Biotype = HasMemberMixin(value="Biotype", ...))
+            for m in self.repo.modules.values():
+                if cls_name in m.assigns and isinstance(m.assigns[cls_name], ast.Call):
+                    self.eval(m.assigns[cls_name], {}, Func("<module>", ast.parse("def f(): pass").body[0], m), 0)
+                    break
         if cls_name not in self.enum_cache:
             c = self.repo.cls(cls_name)
             members = {}
@@ -130,6 +142,8 @@ class Interp:
         return self.enum_cache[cls_name]
 
     def is_enum_class(self, name) -> bool:
+        if name in self.dynamic_enums:
+            return True
         if not self.repo.has_cls(name):
             return False
         c = self.repo.cls(name)
@@ -173,8 +187,15 @@ class Interp:
             env[p] = v
         if a.vararg:
             env[a.vararg.arg] = tuple(args[len(params):])
+        known = set(func.pos_params) | {x.arg for x in a.kwonlyargs}
+        extra = {}
         for k, v in kwargs.items():
-            env[k] = v
+            if a.kwarg and k not in known:
+                extra[k] = v
+            else:
+                env[k] = v
+        if a.kwarg:
+            env[a.kwarg.arg] = extra
         for p in params + [x.arg for x in a.kwonlyargs]:
             if p not in env:
                 d = func.param_default(p)
@@ -239,6 +260,15 @@ class Interp:
                 return obj.name
             if name == "__wrapped__":
                 return obj
+            if name == "_value2member_map_" and self.is_enum_class(obj.name):
+                return {m.value: m for m in self.enum(obj.name).values()}
+            if name == "__members__" and self.is_enum_class(obj.name):
+                return dict(self.enum(obj.name))
+            if obj.name in self.dynamic_enums:
+                base = self.repo.cls(self.dynamic_enums[obj.name])
+                m = self.repo.lookup_method(base, name)
+                if m is not None:
+                    return ("bound", m, None if m.is_static else obj)
             if self.repo.has_cls(obj.name):
                 c = self.repo.cls(obj.name)
                 m = self.repo.lookup_method(c, name)
@@ -252,8 +282,22 @@ class Interp:
             raise Raised("AttributeError", f"NoneType.{name}")
         if isinstance(obj, Opaque):
             return Opaque(f"{obj.what}.{name}")
+        if isinstance(obj, tuple) and len(obj) == 2 and obj[0] == "pymodule":
+            if obj[1] == "warnings":
+                return ("native", lambda *a, **k: None)
+            import importlib
+            return ("native", getattr(importlib.import_module(obj[1]), name))
+        if isinstance(obj, SetVal):
+            return ("pymethod", obj, name)
         if isinstance(obj, (list, tuple, dict, set, str)) and hasattr(obj, name):
             return ("pymethod", obj, name)
+        import re as _re
+        if type(obj).__module__ in ("uuid", "_hashlib", "hashlib", "_md5") and hasattr(obj, name):
+            v = getattr(obj, name)
+            return ("pymethod", obj, name) if callable(v) else v
+        if isinstance(obj, (_re.Match, _re.Pattern)) and hasattr(obj, name):
+            v = getattr(obj, name)
+            return ("pymethod", obj, name) if callable(v) else v
         if isinstance(obj, slice) and name in ("start", "stop", "step"):
             return getattr(obj, name)
         if isinstance(obj, slice) and name == "indices":
@@ -400,6 +444,15 @@ class Interp:
     def iterate(self, it):
         if isinstance(it, (list, tuple, set, frozenset, range, dict, str)):
             return list(it)
+        if type(it).__name__ in ("dict_items", "dict_keys", "dict_values", "zip", "map", "filter", "enumerate"):
+            return list(it)
+        if isinstance(it, ClassTok) and self.is_enum_class(it.name):
+            seen, out = set(), []
+            for m in self.enum(it.name).values():
+                if id(m) not in seen:
+                    seen.add(id(m))
+                    out.append(m)
+            return out
         if isinstance(it, _Gen):
             return it.items
         raise Uninterpretable(f"iteration over {type(it).__name__}")
@@ -422,6 +475,13 @@ class Interp:
         return bool(v)
 
     def binop(self, op, a, b):
+        if isinstance(a, SetVal) and isinstance(b, SetVal):
+            if isinstance(op, ast.BitOr):
+                return self.set_method(a, "union", [b], 0)
+            if isinstance(op, ast.BitAnd):
+                return self.set_method(a, "intersection", [b], 0)
+            if isinstance(op, ast.Sub):
+                return self.set_method(a, "difference", [b], 0)
         if isinstance(a, Opaque) or isinstance(b, Opaque):
             return Opaque("binop")
         if isinstance(a, EnumVal) and isinstance(a.value, int) and self._is_intenum(a):
@@ -545,8 +605,24 @@ class Interp:
             return a.value == b
         if isinstance(b, EnumVal) and not isinstance(a, EnumVal) and (self._is_intenum(b) or self._is_strenum(b)):
             return b.value == a
+        if isinstance(a, SetVal) or isinstance(b, SetVal):
+            if not (isinstance(a, SetVal) and isinstance(b, SetVal)):
+                return False
+            return len(a) == len(b) and all(any(self.equals(x, y, depth) for y in b) for x in a)
         if isinstance(a, Opaque) or isinstance(b, Opaque):
+            if a is b:
+                return True
             raise Uninterpretable("equality of opaque values")
+        if isinstance(a, (list, tuple)) and isinstance(b, (list, tuple)) and type(a) is type(b):
+            return len(a) == len(b) and all(self.equals(x, y, depth) for x, y in zip(a, b))
+        if isinstance(a, dict) and isinstance(b, dict):
+            if len(a) != len(b):
+                return False
+            for k, v in a.items():
+                hit = [kk for kk in b if self.equals(k, kk, depth)]
+                if not hit or not self.equals(v, b[hit[0]], depth):
+                    return False
+            return True
         return a == b
 
     def eval(self, n, env, func, depth=0):
@@ -566,6 +642,14 @@ class Interp:
                 return ("bound", mod.funcs[n.id], None)
             if mod is not None and n.id in mod.assigns:
                 return self.eval(mod.assigns[n.id], {}, func, depth)
+            if mod is not None and n.id in mod.imports and mod.imports[n.id][0] in ("re", "math", "hashlib") \
+                    and mod.imports[n.id][1] is None:
+                return ("pymodule", mod.imports[n.id][0])
+            if mod is not None and n.id in mod.imports and mod.imports[n.id] == ("uuid", "UUID"):
+                import uuid
+                return ("native", uuid.UUID)
+            if mod is not None and n.id in mod.imports and mod.imports[n.id][0] == "warnings":
+                return ("native", lambda *a, **k: None) if mod.imports[n.id][1] else ("pymodule", "warnings")
             if mod is not None and n.id in mod.imports and mod.imports[n.id] == ("dataclasses", "astuple"):
                 return ("builtin", "astuple")
             if mod is not None and n.id in mod.imports and mod.imports[n.id][0] in ("itertools", "functools") \
@@ -645,7 +729,21 @@ class Interp:
                 d[self.eval(k, env, func, depth)] = self.eval(v, env, func, depth)
             return d
         if t is ast.JoinedStr:
-            return Opaque("fstring")
+            parts = []
+            for piece in n.values:
+                if isinstance(piece, ast.Constant):
+                    parts.append(str(piece.value))
+                    continue
+                val = self.eval(piece.value, env, func, depth)
+                txt = self.py_repr(val, depth) if piece.conversion == ord("r") else self.py_str(val, depth)
+                if isinstance(txt, Opaque):
+                    return Opaque("fstring")
+                if piece.format_spec is not None:
+                    spec = self.eval(piece.format_spec, env, func, depth)
+                    if isinstance(spec, str) and isinstance(val, (int, float, str)):
+                        txt = format(val, spec)
+                parts.append(txt)
+            return "".join(parts)
         if t is ast.Subscript:
             o = self.eval(n.value, env, func, depth)
             if isinstance(n.slice, ast.Slice):
@@ -720,11 +818,120 @@ class Interp:
         raise Uninterpretable(f"expression {type(n).__name__}")
 
     def _dedupe(self, items, depth):
-        out = []
+        out = SetVal()
         for x in items:
             if not any(self.equals(x, y, depth) for y in out):
                 out.append(x)
         return out
+
+    def py_str(self, v, depth=0):
+        if isinstance(v, str):
+            return v
+        if isinstance(v, (Obj, EnumVal)):
+            m = self.method(v, "__str__")
+            if m is not None:
+                return self.call_func(m, [], {}, v, depth + 1)
+            if isinstance(v, EnumVal):
+                if self._is_intenum(v):
+                    return str(v.value)  # Python >= 3.11 IntEnum.__str__ is int.__str__
+                return f"{v.cls}.{v.name}"
+        if type(v).__module__ in ("uuid",):
+            return str(v)
+        return self.py_repr(v, depth)
+
+    def py_repr(self, v, depth=0):
+        if v is None or isinstance(v, (bool, int, float, str)):
+            return repr(v)
+        if isinstance(v, EnumVal):
+            m = self.method(v, "__repr__")
+            if m is not None:
+                return self.call_func(m, [], {}, v, depth + 1)
+            return f"<{v.cls}.{v.name}: {v.value!r}>"
+        if isinstance(v, Obj):
+            m = self.method(v, "__repr__")
+            if m is not None:
+                return self.call_func(m, [], {}, v, depth + 1)
+            return Opaque("default object repr (address dependent)")
+        if isinstance(v, SetVal):
+            if len(v) <= 1:
+                return "{" + ", ".join(self._reprs(v, depth)) + "}" if v else "set()"
+            return Opaque("str() of a set depends on hash order")
+        if isinstance(v, list):
+            return "[" + ", ".join(self._reprs(v, depth)) + "]"
+        if isinstance(v, tuple):
+            inner = ", ".join(self._reprs(v, depth))
+            return "(" + inner + ("," if len(v) == 1 else "") + ")"
+        if isinstance(v, dict):
+            parts = []
+            for k, x in v.items():
+                a, b = self.py_repr(k, depth), self.py_repr(x, depth)
+                if isinstance(a, Opaque) or isinstance(b, Opaque):
+                    return Opaque("repr")
+                parts.append(f"{a}: {b}")
+            return "{" + ", ".join(parts) + "}"
+        if type(v).__module__ in ("uuid",):
+            return repr(v)
+        return Opaque(f"repr of {type(v).__name__}")
+
+    def _reprs(self, items, depth):
+        out = []
+        for x in items:
+            r = self.py_repr(x, depth)
+            if isinstance(r, Opaque):
+                raise Uninterpretable(f"repr of {r}")
+            out.append(r)
+        return out
+
+    def set_method(self, o, name, args, depth):
+        if name == "add":
+            if not any(self.equals(args[0], y, depth) for y in o):
+                o.append(args[0])
+            return None
+        if name == "update":
+            for a in args:
+                for x in self.iterate(a):
+                    if not any(self.equals(x, y, depth) for y in o):
+                        o.append(x)
+            return None
+        if name in ("union", "__or__"):
+            out = SetVal(o)
+            self.set_method(out, "update", args, depth)
+            return out
+        if name in ("intersection", "__and__"):
+            out = SetVal(o)
+            for a in args:
+                items = self.iterate(a)
+                out = SetVal(x for x in out if any(self.equals(x, y, depth) for y in items))
+            return out
+        if name in ("difference", "__sub__"):
+            out = SetVal(o)
+            for a in args:
+                items = self.iterate(a)
+                out = SetVal(x for x in out if not any(self.equals(x, y, depth) for y in items))
+            return out
+        if name in ("discard", "remove"):
+            hits = [i for i, y in enumerate(o) if self.equals(args[0], y, depth)]
+            if hits:
+                del o[hits[0]]
+            elif name == "remove":
+                raise Raised("KeyError", "remove")
+            return None
+        if name == "pop":
+            if not o:
+                raise Raised("KeyError", "pop from an empty set")
+            return list.pop(o, 0)
+        if name == "copy":
+            return SetVal(o)
+        if name == "clear":
+            del o[:]
+            return None
+        if name in ("issubset", "issuperset", "isdisjoint"):
+            other = self.iterate(args[0])
+            sub = all(any(self.equals(x, y, depth) for y in other) for x in o)
+            sup = all(any(self.equals(x, y, depth) for y in o) for x in other)
+            dis = not any(any(self.equals(x, y, depth) for y in other) for x in o)
+            return {"issubset": sub, "issuperset": sup, "isdisjoint": dis}[name]
+        raise Uninterpretable(f"set method {name}")
 
     def _comp(self, gens, i, env, func, depth, emit):
         if i == len(gens):
@@ -754,7 +961,12 @@ class Interp:
                 args.extend(self.iterate(self.eval(a.value, env, func, depth)))
             else:
                 args.append(self.eval(a, env, func, depth))
-        kwargs = {k.arg: self.eval(k.value, env, func, depth) for k in n.keywords if k.arg}
+        kwargs = {}
+        for k in n.keywords:
+            if k.arg:
+                kwargs[k.arg] = self.eval(k.value, env, func, depth)
+            else:
+                kwargs.update(self.eval(k.value, env, func, depth))
         return self.apply(f, args, kwargs, func, depth, n)
 
     def apply(self, f, args, kwargs, func, depth, node=None):
@@ -780,6 +992,8 @@ class Interp:
             return self.eval(lam.body, env2, func, depth + 1)
         if isinstance(f, tuple) and f and f[0] == "pymethod":
             _, o, name = f
+            if isinstance(o, SetVal):
+                return self.set_method(o, name, args, depth)
             if name == "format":
                 if all(isinstance(a, (str, int, bool, type(None))) for a in list(args) + list(kwargs.values())):
                     return o.format(*args, **kwargs)
@@ -819,11 +1033,35 @@ class Interp:
                 raise Raised("KeyError")
             except (IndexError,):
                 raise Raised("IndexError")
+        if isinstance(f, tuple) and f and f[0] == "native":
+            def wrap(a):
+                if isinstance(a, tuple) and a and a[0] in ("lambda", "closure", "bound"):
+                    return lambda *xs: self.apply(a, list(xs), {}, func, depth)
+                return a
+            try:
+                res = f[1](*[wrap(a) for a in args], **{k: wrap(v) for k, v in kwargs.items()})
+            except TypeError as ex:
+                raise Raised("TypeError", str(ex))
+            return res
         if isinstance(f, ClassTok):
             qual = f.name
             if qual in self.hooks:
                 return self.hooks[qual](self, None, args, kwargs)
             if self.is_enum_class(f.name):
+                names = kwargs.get("names", args[1] if len(args) > 1 else None)
+                ename = kwargs.get("value", args[0] if args else None)
+                if isinstance(names, list) and isinstance(ename, str):
+                    # functional Enum API: EnumBase("Name", [[member, value], ...]); equal values are aliases
+                    members, byval = {}, {}
+                    for pair in names:
+                        mn, mv = pair[0], pair[1]
+                        if mv in byval:
+                            members[mn] = byval[mv]
+                        else:
+                            members[mn] = byval[mv] = EnumVal(ename, mn, mv)
+                    self.enum_cache[ename] = members
+                    self.dynamic_enums[ename] = f.name
+                    return ClassTok(ename)
                 return self.enum_by_value(f.name, args[0] if args else None)
             c = self.repo.cls(f.name)
             init = self.repo.lookup_method(c, "__init__")
@@ -865,6 +1103,8 @@ class Interp:
                 return self.call_func(m, [], {}, v, depth + 1)
             if isinstance(v, _Gen):
                 raise Raised("TypeError", "len of generator")
+            if isinstance(v, Opaque):
+                raise Uninterpretable(f"len of {v}")
             return len(v)
         if name in ("min", "max"):
             vals = list(args[0]) if len(args) == 1 and not kwargs else list(args)
@@ -881,7 +1121,7 @@ class Interp:
                 return ClassTok(v.cls_name)
             if isinstance(v, EnumVal):
                 return ClassTok(v.cls)
-            return ClassTok(type(v).__name__)
+            return ClassTok("set" if isinstance(v, SetVal) else type(v).__name__)
         if name == "isinstance":
             v, c = args
             cs = c if isinstance(c, tuple) and not (len(c) == 2 and c[0] == "builtin") else (c,)
@@ -893,26 +1133,16 @@ class Interp:
                     if self.repo.has_cls(vn) and any(x.name == k.name for x in self.repo.mro(self.repo.cls(vn))):
                         return True
                 elif isinstance(k, tuple) and k[0] == "builtin":
-                    if type(v).__name__ == k[1]:
+                    tn = type(v).__name__
+                    if isinstance(v, SetVal):
+                        tn = "set"
+                    if tn == k[1] or (k[1] == "object"):
                         return True
             return False
         if name == "str" or name == "repr":
             if not args:
                 return ""
-            v = args[0]
-            if isinstance(v, (int, str)) and not isinstance(v, bool):
-                return str(v)
-            if isinstance(v, (Obj, EnumVal)):
-                m = self.method(v, "__str__" if name == "str" else "__repr__")
-                if m is not None:
-                    return self.call_func(m, [], {}, v, depth + 1)
-                if isinstance(v, EnumVal):
-                    return f"{v.cls}.{v.name}"
-            if v is None or isinstance(v, bool):
-                return str(v)
-            if isinstance(v, (list, tuple)) and all(isinstance(x, (int, str)) for x in v):
-                return str(v)
-            return Opaque("str")
+            return self.py_str(args[0], depth) if name == "str" else self.py_repr(args[0], depth)
         if name == "hash":
             return Opaque("hash")
         if name == "slice":
@@ -944,6 +1174,8 @@ class Interp:
             items = self.iterate(args[0]) if args else []
             if name in ("set", "frozenset"):
                 return self._dedupe(items, depth)
+            if name == "list":
+                return list(items)
             return tuple(items) if name == "tuple" else list(items)
         if name == "sorted":
             import functools
